@@ -89,7 +89,11 @@ Spec == Init /\ [][Next]_vars /\ \A t \in Threads : WF_vars(Step(t))
 
 (* ---- what TLC checks ------------------------------------------------------------------------- *)
 Simulates == bad = "none"
-SameShape == \A t \in Threads : Len(stack[t]) = IDepth(t)
+(* same frames on both levels, except that the mechanism has the producer frame from the call into the generator *)
+(* to the return from it, the required specification from the logged start to the logged end                     *)
+SameShape == \A t \in Threads :
+               Len(stack[t]) = IDepth(t) - (IF IDepth(t) > 0 /\ ITop(t).k = "prod" /\ ITop(t).pc \in {"entered", "endok", "enderr"}
+                                              THEN 1 ELSE 0)
 Termination == <>[]AllDone
 
 (* behaviours for the conformance driver: one line per distinct (programs, plans, decisions) *)
